@@ -62,6 +62,23 @@ Theorem C20_keys_golang : forall (w : world) (ops : list op),
 Proof. exact keys_golang. Qed.
 Print Assumptions C20_keys_golang.
 
+(* no Handshake of a documented history fails because a key-share private key is missing or a PSK binder is stale *)
+Theorem C20_handshake_never_fails : forall (w : world) (ops : list op),
+  world_ok w = true -> legal w ops = true -> herr (st_c (final w (init w) ops)) = false.
+Proof. exact handshake_never_fails. Qed.
+Print Assumptions C20_handshake_never_fails.
+
+(* every successful build (explicit, or the one inside Handshake) with a PSK in place leaves binders computed over the
+   hello just marshaled — whatever edits of the hello ([EditHello]) and earlier builds preceded it *)
+Theorem C20_binders_fresh : forall (w : world) (ops : list op) (lf : lst) (o : op) (l2 : lst),
+  world_ok w = true ->
+  legal_from w (linit (w_cache0 w)) ops = Some lf -> legal_step w lf o = Some l2 ->
+  kind o = KBuild \/ kind o = KHandshake ->
+  let r := step w o (final w (init w) ops) in
+  snd r = Ok tt -> cs (st_c (fst r)) = PskAllSet -> binder_fresh (st_c (fst r)) = true.
+Proof. exact binders_fresh. Qed.
+Print Assumptions C20_binders_fresh.
+
 (* ---- non-vacuity and the former defect ---- *)
 Definition chrome (reapply : bool) : world :=   (* session_ticket, no pre_shared_key, TLS 1.3 peer *)
   mkWorld false 1 false true true true false false true HitNone true reapply.
@@ -115,9 +132,20 @@ Example C20_ex_no_extension :
       [SetTicket (Some (true, [1], 1)); Handshake] = [Ok tt; Err E_NO_TICKET_EXT].
 Proof. vm_compute. reflexivity. Qed.
 
+(* edit the built hello, then handshake: the binder is recomputed; filling the extension found in the inspected hello *)
+Example C20_ex_edit_and_reuse :
+  let ops := [SetCache; SetPsk (Some (true, [4; 2], 6)); Build; EditHello] in
+  legal chrome_psk (ops ++ [Handshake]) = true /\
+  binder_fresh (st_c (final chrome_psk (init chrome_psk) ops)) = false /\
+  binder_fresh (st_c (final chrome_psk (init chrome_psk) (ops ++ [Handshake]))) = true /\
+  run chrome_psk (init chrome_psk) [SetCache; BuildNoSess; ReusePsk ([4; 2], 6); Handshake] = [Ok tt; Ok tt; Ok tt; Ok tt] /\
+  wire (st_d (final chrome_psk (init chrome_psk) [SetCache; BuildNoSess; ReusePsk ([4; 2], 6); Handshake])) = Some ([[]], Some [4; 2]) /\
+  wire (st_d (final chrome_psk (init chrome_psk) [SetCache; BuildNoSess; ReuseTicket ([7], 5); Handshake])) = Some ([[7]], None).
+Proof. vm_compute. repeat split. Qed.
+
 (* the size of the finite argument: abstract worlds, those of predefined-parrot shape (all swept), and the reachable
-   control nodes of two of them (no world has more than 66) *)
+   control nodes of two of them (no world has more than 171) *)
 Example C20_ex_sizes :
   N.of_nat (length all_cworlds) = 9216 /\ N.of_nat (length (filter cworld_ok all_cworlds)) = 864 /\
-  length (reach (cworld_of (chrome false))) = 53%nat /\ length (reach (cworld_of chrome_psk)) = 66%nat.
+  length (reach (cworld_of (chrome false))) = 70%nat /\ length (reach (cworld_of chrome_psk)) = 142%nat.
 Proof. vm_compute. repeat split. Qed.
